@@ -65,6 +65,9 @@ fn opcode(op: &Op) -> u64 {
         Op::Wakeup => 31,
         Op::StreamPushSelfWake(_) => 32,
         Op::RegisterAgain(_) => 33,
+        Op::Stop => 34,
+        Op::Retarget(..) => 35,
+        Op::StreamBurst(_) => 36,
     }
 }
 
@@ -601,6 +604,16 @@ pub fn exec_op(op: &Op, ctx: Ctx) {
                 }
             });
         }
+        Op::Retarget(sel, int, md) => retarget(&h, *sel, *int, *md, ctx),
+        Op::Stop => {
+            if let Some(sig) = w(|w| {
+                w.count("stop");
+                w.tr(|| "LoopSignal::stop()".to_string());
+                w.signal.clone()
+            }) {
+                sig.stop();
+            }
+        }
         Op::Wakeup => {
             if let Some(sig) = w(|w| {
                 w.count("wakeup");
@@ -741,6 +754,14 @@ pub fn exec_op(op: &Op, ctx: Ctx) {
                 stream_push(uid);
             }
         }
+        Op::StreamBurst(sel) => {
+            if let Some(uid) = w(|w| resolve_any(w, *sel, ctx, &|s| s.stream.is_some())) {
+                w(|w| w.count("stream_burst"));
+                for _ in 0..1100 {
+                    stream_push(uid);
+                }
+            }
+        }
         Op::StreamPushSelfWake(sel) => {
             let Some(uid) = w(|w| resolve_any(w, *sel, ctx, &|s| s.stream.is_some())) else { return };
             let wk = w(|w| {
@@ -853,13 +874,17 @@ fn set_deadline(h: &LoopHandle<'static, ()>, sel: Sel, dl: Dl, ctx: Ctx) {
         return;
     };
     let was_disabled = w(|w| w.srcs[uid].st == St::Disabled);
-    let new = resolve_dl(dl);
+    let mut new = resolve_dl(dl);
+    if new.is_none() && w(|w| matches!(w.srcs[uid].spec.kind, Kind::Comp { .. })) {
+        // the watchdog of a composite always has a representable deadline
+        new = Some(std::time::Instant::now() + Duration::from_secs(3600));
+    }
     // set the deadline through the harness' own Dispatcher handle
     let tok = w(|w| {
         let s = &mut w.srcs[uid];
         match s.disp.as_ref() {
             Some(DispZ::N(d)) => {
-                if let Inner::Timer(t) = &mut d.as_source_mut().inner {
+                if let Some(t) = d.as_source_mut().timer_mut() {
                     match new {
                         Some(i) => t.set_deadline(i),
                         None => t.set_duration(Duration::MAX),
@@ -867,7 +892,7 @@ fn set_deadline(h: &LoopHandle<'static, ()>, sel: Sel, dl: Dl, ctx: Ctx) {
                 }
             }
             Some(DispZ::L(d)) => {
-                if let Inner::Timer(t) = &mut d.as_source_mut().inner {
+                if let Some(t) = d.as_source_mut().timer_mut() {
                     match new {
                         Some(i) => t.set_deadline(i),
                         None => t.set_duration(Duration::MAX),
@@ -900,6 +925,65 @@ fn set_deadline(h: &LoopHandle<'static, ()>, sel: Sel, dl: Dl, ctx: Ctx) {
             w.srcs[uid].st = St::Limbo;
             if !w.srcs[uid].fault_fired {
                 w.alarm("C15.op_error", "update-failed-without-fault", format!("update(#{}) after set_deadline failed: {}", uid, e));
+            }
+        }
+    });
+}
+
+/// a Generic gets another interest and/or trigger mode (public fields), followed by update(); only from outside
+/// a dispatch: events collected for the old registration would otherwise be judged against the new one
+fn retarget(h: &LoopHandle<'static, ()>, sel: Sel, int: Int, md: Md, ctx: Ctx) {
+    if ctx != Ctx::Outside {
+        return;
+    }
+    let Some(uid) = w(|w| {
+        if w.in_dispatch {
+            return None;
+        }
+        resolve(w, sel, ctx, &|s| matches!(s.spec.kind, Kind::Gen { .. }) && s.st == St::Enabled && s.registered && s.disp.is_some() && s.fds.len() == 1 && !s.in_process)
+    }) else {
+        return;
+    };
+    let tok = w(|w| {
+        let s = &mut w.srcs[uid];
+        match s.disp.as_ref() {
+            Some(DispZ::N(d)) => {
+                if let Inner::Gen(g) = &mut d.as_source_mut().inner {
+                    g.interest = super::build::interest(int);
+                    g.mode = super::build::mode(md);
+                }
+            }
+            Some(DispZ::L(d)) => {
+                if let Inner::Gen(g) = &mut d.as_source_mut().inner {
+                    g.interest = super::build::interest(int);
+                    g.mode = super::build::mode(md);
+                }
+            }
+            None => {}
+        }
+        let old = (s.fds[0].int, s.fds[0].md);
+        s.fds[0].int = int;
+        s.fds[0].md = md;
+        if let Kind::Gen { fd, .. } = s.spec.kind {
+            s.spec.kind = Kind::Gen { fd, int, md };
+        }
+        let tok = s.token;
+        w.count("op_retarget");
+        if old.0 == int && old.1 != md {
+            w.count("retarget_mode_only");
+        }
+        w.tr(|| format!("retarget(#{}, {:?}/{:?} -> {:?}/{:?}) + update", uid, old.0, old.1, int, md));
+        tok
+    });
+    let Some(tok) = tok else { return };
+    let prev = w(|w| std::mem::replace(&mut w.reg_ctx, RegCtx::Op(uid)));
+    let r = h.update(&tok);
+    w(|w| {
+        w.reg_ctx = prev;
+        if let Err(e) = r {
+            w.srcs[uid].st = St::Limbo;
+            if !w.srcs[uid].fault_fired {
+                w.alarm("C15.op_error", "update-failed-without-fault", format!("update(#{}) after a change of interest/mode failed: {}", uid, e));
             }
         }
     });
